@@ -153,6 +153,10 @@ def oracle(prog, res):
                 v.append(("tracker_not_relaunched", f"kill {i + 1}: pid still {e['new_pid']}"))
             elif not e["warned"]:
                 v.append(("no_relaunch_warning", f"kill {i + 1}"))
+            if e.get("files_missing"):
+                v.append(("registered_files_cleaned_while_owner_alive", f"kill {i + 1}: files {e['files_missing']} registered by concurrent "
+                          f"threads right after the tracker died vanished although their process is alive (a second tracker was "
+                          f"launched and the first one saw end-of-file)"))
             c = e.get("child")
             if c is not None:
                 if "error" in c:
@@ -215,7 +219,8 @@ def real_shard(seed, n, tier="quick"):
     def progs(draw):
         if draw(st.integers(0, 3)) == 0:
             return {"mode": "heal", "kills": draw(st.integers(1, 3)), "gap": draw(st.sampled_from([0.0, 0.05, 0.3])),
-                    "op": draw(st.sampled_from(["register", "unregister", "spawn", "spawn"]))}
+                    "op": draw(st.sampled_from(["register", "unregister", "spawn", "spawn", "threads", "threads"])),
+                    "nthreads": draw(st.integers(2, 5)), "interrupted_relaunch": draw(st.sampled_from([False, False, True]))}
         tree = draw(trees)
         tree["death"] = "return"           # the root (driver) returns
         n_ = len(_paths(tree))
